@@ -656,8 +656,17 @@ Proof.
 Qed.
 Lemma wfG_chain_body sp yield : (forall v, wfG sp (yield v)) -> forall ss, wfG sp (chain_body ss yield).
 Proof. intros Hy ss. induction ss as [|i r IH]; cbn [chain_body]; wf. Qed.
+(* chain.__anext__: a failure other than the consumer's GeneratorExit closes the owned iterators *)
 Lemma wfG_run_chain sp ss : wfG sp (run_chain ss).
-Proof. apply wfG_chain_body. intros v. apply wfG_chain_yield. Qed.
+Proof.
+  pose (failed := fun o : outcome unit => match o with Exn XGenExit => false | Exn _ => true | _ => false end).
+  apply (wfG_ext sp (finallyS (fun w => (chain_body ss (chain_yield ss) w, failed (fst (chain_body ss (chain_yield ss) w))))
+                              (fun b : bool => if b then close_all ss else ret tt))).
+  - intros w. unfold finallyS, run_chain, failed. destruct (chain_body ss (chain_yield ss) w) as [[u|e|] w1]; cbn; try reflexivity.
+    destruct e; reflexivity.
+  - apply wfG_finallyS; [|intros [|]; [apply cleanupG_close_all | apply cleanupG_ret]].
+    apply wfGS_tag, wfG_chain_body. intros v. apply wfG_chain_yield.
+Qed.
 
 (* zip_longest: the slot list is threaded on every path *)
 Lemma wfGS_longest_row sp fillv : forall todo pos done_ vals rem,
